@@ -86,7 +86,6 @@ def gen_parsed_spec(rng, idx=None):
     sel = SELECTIONS[idx % len(SELECTIONS)] if idx is not None else rng.choice(SELECTIONS)
     tests_str, vm_strs, nets = sel[:3]
     cfg = {"test_timeout": 1000}
-    mixed = idx is not None and idx % len(SELECTIONS) in (MIXED_SETS, MIXED_SETS_4)
     if rng.random() < 0.4:
         cfg["max_tries"] = rng.choice([1, 2, 2, 3, 1, 2, 2, 3, 0])
         if rng.random() < 0.3:
@@ -113,11 +112,10 @@ def gen_parsed_spec(rng, idx=None):
             seq = [[d, "PASS"] for d, _ in seq]
         sched[wid] = seq
     spec = {"parsed": {"tests_str": tests_str, "vm_strs": vm_strs, "nets": nets}, "cfg": cfg, "pool": {}, "schedule": sched}
-    if mixed:
-        # one composite node serving two flat nodes of different test sets: the order in which the worker walks such a graph
-        # is not reproduced by the model (a gap of the MODEL's lazy layer, DESIGN 11.2); judged by the monitors and by the
-        # comparison with the eager parse only
-        spec["monitors_only"] = "composite node shared by flat nodes of two test sets"
+    # (the mixed-set selections - one composite node serving flat nodes of two test sets - used to be marked
+    # `spec["monitors_only"]`: the model's lazy layer made the edge from a flat node to an already parsed composite node visible
+    # too early.  Repaired (`Trav.edgeCode`, design.d/C02.md "Mixed-set lazy expansion now reproduced by the model"): they are
+    # compared with the model block by block like every other case.)
     return spec
 
 
